@@ -104,7 +104,36 @@ fn large_graph(c: &LargeEnc) -> crate::checks::metamorphic::BigGraph {
             }
         }
     }
-    for k in 0..(c.hub_attackers as usize).min(n.saturating_sub(1)) {
+    let mut k_hub = (c.hub_attackers as usize).min(n.saturating_sub(1));
+    if c.hub_attackers >= 30 && n >= 70 {
+        // a hub of 30+ attackers that stays within reach of the exponential encoder and whose attackers are
+        // OPTIONAL: attacker i (1..=k) is, for most i, in a mutual attack with its own partner k+i, and no
+        // generated attack touches attackers or partners; the hub attacks two of the remaining arguments
+        k_hub = k_hub.min((n - 4) / 2);
+        let rest = n - 2 * k_hub - 1;
+        // few generated attacks among the remaining arguments, or their in-degrees put the exponential
+        // encoding out of reach again
+        att.truncate(rest + rest / 2);
+        for (a, b) in att.iter_mut() {
+            if (1..=2 * k_hub).contains(&(*b as usize)) {
+                *b = (2 * k_hub + 1 + (*b as usize) % rest) as u16;
+            }
+            if (1..=2 * k_hub).contains(&(*a as usize)) {
+                *a = (2 * k_hub + 1 + (*a as usize) % rest) as u16;
+            }
+        }
+        let w = c.probes.first().copied().unwrap_or(0x5555_5555_5555_5555);
+        for i in 1..=k_hub {
+            // half of the cases: every attacker is optional; otherwise three in four
+            if w & 1 == 1 || (w >> (i % 64)) & 3 != 0 {
+                att.push((i as u16, (k_hub + i) as u16));
+                att.push(((k_hub + i) as u16, i as u16));
+            }
+        }
+        att.push((0, (n - 1) as u16));
+        att.push((0, (2 * k_hub + 1) as u16));
+    }
+    for k in 0..k_hub {
         att.push((((k + 1) % n) as u16, 0));
     }
     if c.via_iccma {
@@ -161,6 +190,9 @@ impl Encodings {
                 .fold(0usize, |a, b| a.saturating_add(b))
         };
         rec.class(&format!("large-n-{:02}+", (n / 10) * 10));
+        if c.hub_attackers >= 30 && n >= 70 {
+            rec.class(&format!("large-with-optional-hub-attackers-exp-{}", if exp_clauses > EXP_LIMIT { "skipped" } else { "encoded" }));
+        }
         for enc in ENCODERS {
             if enc == Enc::ExpCo && exp_clauses > EXP_LIMIT {
                 continue;
@@ -702,9 +734,9 @@ impl Prop for Encodings {
         let nmax = tier.pick(8, 10);
         let small = (gen::graph(nmax), gen::pres_compact(nmax), prop_oneof![3 => Just(None), 2 => gen::graph(nmax).prop_map(Some)])
             .prop_map(|(g, pres, warmup)| EncAny::Small(EncCase { gc: GraphCase { g, pres }, warmup }));
-        let large = (11usize..=48)
+        let large = prop_oneof![3 => 11usize..=48, 1 => 70usize..=190]
             .prop_flat_map(|n| {
-                (Just(n), vec((any::<u16>(), any::<u16>()), 0..=(2 * n)), prop_oneof![2 => Just(0u8), 1 => 6u8..24], any::<bool>(), vec(any::<u16>(), 0..=4), vec(any::<u64>(), 4..=12))
+                (Just(n), vec((any::<u16>(), any::<u16>()), 0..=(2 * n)), prop_oneof![2 => Just(0u8), 1 => 6u8..24, 1 => 30u8..90], any::<bool>(), vec(any::<u16>(), 0..=4), vec(any::<u64>(), 4..=12))
             })
             .prop_map(|(n, att, hub_attackers, via_iccma, dups, probes)| EncAny::Large(LargeEnc { n, att, hub_attackers, via_iccma, dups, probes, period: 0, lift: false }));
         // 64-320 arguments whose attacks run between a dozen residues modulo 32 or 64 on several floors
